@@ -689,6 +689,91 @@ def r27_fold_max(toks, log):
         i += 1
     return toks
 
+def r28_zip_map_collect(toks, log):
+    """R28: `let NAME = A.into_iter().zip(B).map(|(X, Y)| EXPR).collect();`  ->
+            `let mut NAME = Vec::new(); for vx_z in 0 .. (min of the two lengths) { let X = A[vx_z]; let Y = B[vx_z]; NAME.push(EXPR); }`
+       R26c: `for (X, Y) in A.iter_mut().zip(B.iter()) { ... *X ... *Y ... }`  ->  index loop with `*X` read/written as `A[vx_z]`
+    (element-wise traversal of two vectors in order, stopping at the shorter one)"""
+    toks = list(toks)
+    i = 0
+    while i < len(toks):
+        t = toks[i]
+        if t.kind == "id" and t.text == "let":
+            try: e = stmt_end(toks, i)
+            except Undecided:
+                i += 1; continue
+            txt = [u.text for u in toks[i:e + 1]]
+            # let NAME = A . into_iter ( ) . zip ( B ) . map ( | ( X , Y ) | EXPR ) . collect ( ) ;
+            if len(txt) > 24 and txt[2] == "=" and txt[4:9] == [".", "into_iter", "(", ")", "."] and txt[9:11] == ["zip", "("] and txt[12:16] == [")", ".", "map", "("] \
+               and txt[16:18] == ["|", "("] and txt[19] == "," and txt[21:23] == [")", "|"] and txt[-6:] == [")", ".", "collect", "(", ")", ";"]:
+                name, A, B, X, Y = txt[1], txt[3], txt[11], txt[18], txt[20]
+                expr = " ".join(txt[23:-6])
+                ln = t.line
+                new = toks_of("let mut %s = Vec :: new ( ) ; for vx_z in 0 .. ( if %s . len ( ) < %s . len ( ) { %s . len ( ) } else { %s . len ( ) } ) { let %s = %s [ vx_z ] ; let %s = %s [ vx_z ] ; %s . push ( %s ) ; }"
+                              % (name, A, B, A, B, X, A, Y, B, name, expr), ln)
+                toks[i:e + 1] = new
+                log.append(("R28", ln, "%s.into_iter().zip(%s).map(..).collect() -> loop with push" % (A, B)))
+                i += len(new); continue
+        if t.kind == "id" and t.text == "for" and i + 1 < len(toks) and P(toks[i + 1], "("):
+            pc = match_close(toks, i + 1)
+            pat = [u.text for u in toks[i + 2:pc]]
+            j = pc + 1
+            hdr = []
+            while j < len(toks) and not P(toks[j], "{"):
+                hdr.append(toks[j].text); j += 1
+            # for ( X , Y ) in A . iter_mut ( ) . zip ( B . iter ( ) ) {
+            if len(pat) == 3 and pat[1] == "," and len(hdr) == 15 and hdr[0] == "in" and hdr[2:7] == [".", "iter_mut", "(", ")", "."] and hdr[7:9] == ["zip", "("] and hdr[10:] == [".", "iter", "(", ")", ")"]:
+                X, Y, A, B = pat[0], pat[2], hdr[1], hdr[9]
+                bc = match_close(toks, j)
+                body = toks[j + 1:bc]
+                nb = []
+                k = 0
+                while k < len(body):
+                    if P(body[k], "*") and k + 1 < len(body) and body[k + 1].kind == "id" and body[k + 1].text in (X, Y) and (k == 0 or not (body[k - 1].kind in ("id", "num") or body[k - 1].text in (")", "]"))):
+                        src = A if body[k + 1].text == X else B
+                        nb += toks_of("%s [ vx_z ]" % src, body[k].line); k += 2
+                    else:
+                        nb.append(body[k]); k += 1
+                ln = t.line
+                head = toks_of("for vx_z in 0 .. ( if %s . len ( ) < %s . len ( ) { %s . len ( ) } else { %s . len ( ) } ) {" % (A, B, A, B), ln)
+                toks[i:bc] = head + nb
+                log.append(("R26", ln, "for (%s, %s) in %s.iter_mut().zip(%s.iter()) -> index loop" % (X, Y, A, B)))
+                i += len(head); continue
+        i += 1
+    return toks
+
+def r29_all_and_ref_for(toks, log):
+    """R29: `let NAME = X.iter().all(|&V| EXPR);`  ->  `let mut NAME = true; for vx_a in 0 .. X.len() { let V = X[vx_a]; if !(EXPR) { NAME = false; break; } }`
+       R26d: `for &V in X {`  ->  `for vx_r in 0 .. X.len() { let V = X[vx_r];`
+    (the same elements in the same order; `all` stops at the first element that fails, as the loop does)"""
+    toks = list(toks)
+    i = 0
+    while i < len(toks):
+        t = toks[i]
+        if t.kind == "id" and t.text == "let":
+            try: e = stmt_end(toks, i)
+            except Undecided:
+                i += 1; continue
+            txt = [u.text for u in toks[i:e + 1]]
+            # let NAME = X . iter ( ) . all ( | & V | EXPR ) ;
+            if len(txt) > 15 and txt[2] == "=" and txt[4:11] == [".", "iter", "(", ")", ".", "all", "("] and txt[11:13] == ["|", "&"] and txt[14] == "|" and txt[-2:] == [")", ";"]:
+                name, X, V = txt[1], txt[3], txt[13]
+                expr = " ".join(txt[15:-2])
+                ln = t.line
+                new = toks_of("let mut %s = true ; for vx_a in 0 .. %s . len ( ) { let %s = %s [ vx_a ] ; if ! ( %s ) { %s = false ; break ; } }" % (name, X, V, X, expr, name), ln)
+                toks[i:e + 1] = new
+                log.append(("R29", ln, "%s.iter().all(..) -> loop" % X))
+                i += len(new); continue
+        if t.kind == "id" and t.text == "for" and i + 4 < len(toks) and P(toks[i + 1], "&") and toks[i + 2].kind == "id" and toks[i + 3].text == "in" and toks[i + 4].kind == "id" and P(toks[i + 5], "{"):
+            V, X = toks[i + 2].text, toks[i + 4].text
+            ln = t.line
+            new = toks_of("for vx_r in 0 .. %s . len ( ) { let %s = %s [ vx_r ] ;" % (X, V, X), ln)
+            toks[i:i + 6] = new
+            log.append(("R26", ln, "for &%s in %s -> index loop" % (V, X)))
+            i += len(new); continue
+        i += 1
+    return toks
+
 def r5_local_const(toks, log):
     """fn-local `const N: T = e;` -> `let N: T = e;` (applied to fn bodies only)"""
     toks = list(toks)
@@ -797,6 +882,8 @@ def apply_rewrites(toks, cfg, log):
         toks = subst(toks, log, cfg["subst_pre"])
     toks = r16_assert_eq(toks, log)
     toks = r27_fold_max(toks, log)
+    toks = r28_zip_map_collect(toks, log)
+    toks = r29_all_and_ref_for(toks, log)
     if cfg.get("unmodelled"):
         toks = r15_unmodelled(toks, log)
     toks = r26_for_pairs(toks, log)
